@@ -75,6 +75,8 @@ def gen_channel(rng, bnodes):
         ch["parts"] = rng.randint(2, 3)
     ch["split_seed"] = rng.randrange(1 << 20)
     ch["turtle_grouped"] = rng.random() < 0.7
+    if tr in ("gz", "xz") and rng.random() < 0.35:
+        ch["members"] = rng.randint(2, 3)
     if tr == "zip" and rng.random() < 0.5:
         # members stored under folders of the archive (zip -r / shutil.make_archive layout), no directory entries
         ch["member_dirs"] = [rng.choice(["", "data/", "data/more/", "x/"]) for _ in range(4)]
@@ -85,7 +87,7 @@ def generate(rng, tier, index):
     bnodes = rng.random() < 0.25
     schema = rng.random() < 0.3
     n_nodes = rng.choice([3, 4, 6, 8]) if tier == "quick" else rng.choice([3, 4, 6, 8, 12, 20])
-    kinds = ("node", "str", "int", "lang", "date", "iri", "iri2")
+    kinds = ("node", "str", "int", "lang", "date", "iri", "iri2", "cdt")
     if schema:
         triples = gen.gen_schema_graph(rng, n_nodes=n_nodes, n_classes=rng.randint(1, 3), n_props=rng.randint(1, 4), bnodes=bnodes)
     else:
@@ -153,8 +155,25 @@ def build_channel(sim, triples, ch, tag):
         paths = []
         for i, d in enumerate(docs):
             p = sim.path("%s_%d.%s.%s" % (tag, i, ext, tr))
-            with (gzip.open(p, "wb") if tr == "gz" else lzma.open(p, "wb")) as f:
-                f.write(d.encode("utf-8"))
+            data = d.encode("utf-8")
+            if ch.get("members", 1) > 1 and fmt in ("nt", "tsv_spo"):
+                # one file made of several concatenated gzip / xz members (cat a.gz b.gz, pigz, bgzip layouts),
+                # cut at line ends
+                lines = data.splitlines(True)
+                k = max(1, len(lines) // ch["members"])
+                chunks = [b"".join(lines[j:j + k]) for j in range(0, len(lines), k)]
+                with open(p, "wb") as f:
+                    for c in chunks:
+                        f.write(gzip.compress(c) if tr == "gz" else lzma.compress(c))
+            elif ch.get("members", 1) > 1 and tr == "gz":
+                # whole-document formats: the members are arbitrary byte slices of the document
+                k = max(1, len(data) // ch["members"])
+                with open(p, "wb") as f:
+                    for j in range(0, len(data), k):
+                        f.write(gzip.compress(data[j:j + k]))
+            else:
+                with (gzip.open(p, "wb") if tr == "gz" else lzma.open(p, "wb")) as f:
+                    f.write(data)
             paths.append(p)
         kw["compression_mode"] = tr
         if len(paths) == 1:
@@ -261,7 +280,9 @@ def extra_scenarios(tier, base):
     for k in range(n):
         for fmt in ("nt", "tsv_spo"):
             rng = random.Random("C08-layout:%s:%s:%s" % (base, k, fmt))
-            triples = gen.gen_aligned_graph(rng, fmt=fmt, n_classes=rng.randint(2, 6))
+            bounds = (4096, 8192, 16384, 32768, 65536, 131072, 262144, 524288, 1048576) if (fmt == "nt" or tier == "thorough") \
+                else (4096, 8192, 16384, 32768, 65536, 131072)
+            triples = gen.gen_aligned_graph(rng, fmt=fmt, boundaries=bounds, n_classes=rng.randint(2, 6))
             channels = [{"transport": tr, "format": fmt, "parts": 1, "split_seed": 0, "turtle_grouped": False}
                         for tr in ("file", "gz", "xz", "zip", "zips", "raw")]
             out.append(("layout-%s-%d" % (fmt, k), {
